@@ -97,6 +97,9 @@ DamageClauses(s, e, t) ==
     Cl("C19_NoWrongData", {"C19"}, TRUE,
         \A i \in 1..Len(e.delivered) :
             LET d == e.delivered[i] IN
-            d.res = "ok" => ((d.kind = "blob" /\ BlobIdOf(d.c) = d.id) \/ (d.kind \in {"tree", "commit"} /\ d.cid = d.id)))
+            d.res = "ok" =>
+                IF d.via = "cat-file-t"
+                THEN d.cid = d.id     \* the kind printed for an id is the kind of the intact object stored under it (the harness sets cid = id then)
+                ELSE ((d.kind = "blob" /\ BlobIdOf(d.c) = d.id) \/ (d.kind \in {"tree", "commit"} /\ d.cid = d.id)))
     >>
 =============================================================================
